@@ -21,6 +21,8 @@ func init() {
 }
 
 func runC07(c *eng.Ctx) {
+	c.Rule("R02.7", "K5")
+	ruleISRChangeCarriesTheReplicatorsGeneration(c)
 	c.Rule("R07.11", "K1")
 	ruleElectionIsForTheReportedLeaderEpoch(c)
 	p := c.P
@@ -508,7 +510,6 @@ func ruleCandidate(c *eng.Ctx) {
 
 // ruleEpochStamping (R07.5 / R06.5): every mutating path stamps the partition epoch; CREATE_STREAM stamps both epochs.
 func ruleEpochStamping(c *eng.Ctx) {
-	p := c.P
 	// every mutating path stamps the partition epoch, and CREATE_STREAM stamps both epochs with the Raft index
 	for _, m := range []struct{ fn, mut string }{
 		{"server.(*metadataAPI).RemoveFromISR", "server.partition.RemoveFromISR"},
@@ -533,20 +534,5 @@ func ruleEpochStamping(c *eng.Ctx) {
 			c.Check(eng.Param("epoch")(se.Common().Args[1]), fn.Name()+" stamps the operation's epoch", c.Pos(se.(ssa.Instruction)), "SetEpoch(epoch)", "SetEpoch is not given the operation's epoch")
 		}
 	}
-	if fn := c.Fn("server.(*Server).apply"); fn != nil {
-		cs := eng.CallsIn(fn, "server.Server.applyCreateStream")
-		n := 0
-		for _, f := range []string{"LeaderEpoch", "Epoch"} {
-			fo := p.Field("server/protocol", "Partition", f)
-			for _, st := range eng.FieldStores(fn, func(fa *ssa.FieldAddr) bool { return fieldIs(fa, fo) }) {
-				if eng.Param("index")(st.Val) && len(cs) == 1 {
-					q := &eng.PathQuery{Fn: fn, FromAfter: []ssa.Instruction{cs[0].(ssa.Instruction)}, Target: func(x ssa.Instruction) bool { return x == st }}
-					if q.Find() == nil {
-						n++
-					}
-				}
-			}
-		}
-		c.Check(n == 2, "CREATE_STREAM stamps leader and partition epoch with the Raft index", p.Pos(fn.Pos()), "partition.LeaderEpoch = index; partition.Epoch = index before applyCreateStream", "a created stream's partitions do not start at (leader epoch, epoch) = Raft index: later operations with smaller indices are not fenced")
-	}
+	ruleCreateStampsEpochs(c)
 }
